@@ -122,6 +122,10 @@ def as_callable(kind, work):
     return functools.partial(operator.call, work)      # a partial around a builtin
 
 
+import re
+FRAMELESS_RE = re.compile(r"c14\D{0,6}?(\d+)")
+
+
 class Trigger:
     """stands for the wake-up pipe of the task manager"""
     def __init__(self):
@@ -185,8 +189,21 @@ class Impl:
         self.seq0 = 0
         self.trigger = Trigger()
         self.tm.trigger = self.trigger
-        self.bcore.run._exception = self.logged
-        self.bcore.run_once._exception = self.logged
+        # the library's OWN error reporter stays in place (vt.py replaced it): what
+        # bacpypes_debugging attaches to run / run_once is attached again, and the rig listens on
+        # their loggers — a reporter that fails inside the loop's except handler is part of the
+        # behaviour under test
+        import logging
+        import bacpypes.debugging as bdebug
+        impl = self
+
+        class Listener(logging.Handler):
+            def emit(self, record):
+                impl.logged()
+        for fn in (self.bcore.run, self.bcore.run_once):
+            bdebug.bacpypes_debugging(fn)
+            fn._logger.addHandler(Listener())
+            fn._logger.propagate = False
         self.tasks = []
         self.tpu = 1
         self.out = []
@@ -231,6 +248,29 @@ class Impl:
 
     def defer(self, spec):
         h = self
+        fl = spec.get("fl")
+        if fl is not None and spec["r"] and not spec["k"] and not spec.get("a"):
+            # a raising member WITHOUT a Python frame of its own
+            fid = spec["id"]
+            key = ("c14", fid)
+            args = ()
+            if fl % 5 == 0:
+                fn, args = {}.pop, (key,)                          # builtin bound method: KeyError
+            elif fl % 5 == 1:
+                fn, args = [].index, (key,)                        # builtin bound method: ValueError
+            elif fl % 5 == 2:
+                fn = functools.partial(int, "c14-%d" % fid)        # C callable: ValueError
+            elif fl % 5 == 3:
+                fn = functools.partial(operator.getitem, {}, key)  # C callable: KeyError
+            else:
+                ns = {}
+                exec("def c14_fn_%d():\n    pass\n" % fid, ns)    # zero-argument function ...
+                fn, args = ns["c14_fn_%d" % fid], (1, 2, 3)        # ... called with three: TypeError
+            self.fn_ids[id(fn)] = fid
+            self.fn_keep.append(fn)
+            self.subs.append(fid)
+            self.bcore.deferred(fn, *args)
+            return
 
         def work():
             h.out.append(["call", spec["id"]])
@@ -281,8 +321,9 @@ class Impl:
             else:
                 raise core.Infra("bad act %r" % (a,))
 
-    def logged(self, fmt, *args):
-        """what core.run / core.run_once call from their `except Exception`"""
+    def logged(self, *_a):
+        """what core.run / core.run_once report from their `except Exception` (called by the
+        listener on their loggers, inside the except block)"""
         _et, ev, tb = sys.exc_info()
         if isinstance(ev, Overrun):
             self.out.append(["overrun"])
@@ -295,6 +336,15 @@ class Impl:
             return
         if who and who[0] == "t":
             self.out.append(["terr", who[1]])
+            return
+        m = FRAMELESS_RE.search("%s %r" % (ev, getattr(ev, "args", ())))
+        if m and not isinstance(ev, Boom):
+            # a member without a Python frame of its own (builtin method, C callable, bad call
+            # signature): it cannot record its own call, the error report is the record
+            fid = int(m.group(1))
+            self.out.append(["call", fid])
+            self.calls.append(fid)
+            self.out.append(["ferr", fid])
             return
         idx = None
         while tb is not None:
@@ -1036,6 +1086,8 @@ def fn_spec(rng, ids, depth=0, pacts=0.0):
     acts = rand_acts(rng, None, pacts)
     if acts:
         f["a"] = acts
+    elif f["r"] and not kids and rng.random() < 0.4:
+        f["fl"] = rng.randrange(5)        # raises without a Python frame of its own
     return f
 
 
@@ -1215,6 +1267,11 @@ def deferred_scenarios(ctx, kbase=0):
                                   {"id": 33, "r": rs[0], "k": [], "kind": kd(4)}]}]}
             shapes.append([{"id": i, "r": rs[i], "kind": kd(i), "k": ([chain] if i == n // 2 else [])}
                            for i in range(n)])
+            # flat again, every raising member WITHOUT a Python frame of its own: builtin bound
+            # methods ({}.pop, [].index), C callables (partial(int, ...), partial(operator.getitem,
+            # ...)), a zero-argument function called with three arguments
+            if mask:
+                shapes.append([dict(f, fl=kbase + i) if f["r"] else f for i, f in enumerate(shapes[0])])
             for si, fns in enumerate(shapes):
                 for loop in ("once", "run"):
                     adv = {"op": loop, "d": 0}
@@ -1602,16 +1659,15 @@ def longrun_child(seed, n_ops, mode, variant="plain", timing="before"):
     # cost the whole budget of the check
     import signal
     state = {"i": 0, "what": "start"}
-    limit = 10 + n_ops // 4000
+    limit = 20          # seconds for ONE pass (a legitimate pass takes microseconds)
 
     def on_alarm(*_a):
         print(json.dumps({"ok": False, "op": state["i"], "trigger": real_trigger, "sets": sets,
-                          "what": "operation %d (%s) had not returned when the history's time limit of "
-                                  "%d s ran out: the loop does not come to rest" % (state["i"], state["what"], limit)}))
+                          "what": "operation %d (%s) had not returned after %d s: the loop does not "
+                                  "come to rest" % (state["i"], state["what"], limit)}))
         sys.stdout.flush()
         os._exit(0)
     signal.signal(signal.SIGALRM, on_alarm)
-    signal.alarm(limit)
     for i in range(n_ops):
         r = rng.random()
         k = rng.randrange(K)
@@ -1646,7 +1702,11 @@ def longrun_child(seed, n_ops, mode, variant="plain", timing="before"):
                 state["what"] = what
                 clock[0] += STEP
                 nf = len(fired)
-                one_pass()
+                signal.alarm(limit)
+                try:
+                    one_pass()
+                finally:
+                    signal.alarm(0)
                 new = fired[nf:]
                 exp = sorted(k2 for k2, d2 in pending.items() if d2 <= clock[0])
                 if sorted(f[0] for f in new) != exp:
